@@ -574,6 +574,19 @@ impl<'a> FetchModel<'a> {
                     format!("{} is on the proven chain and was requested, but after the honest continuation fetch_header still reports {}", HD_NAMES[*i], ["never-asked", "added", "fetching", "fetched", "not_found"][st as usize]),
                 ));
             }
+            if !on_chain && st == 2 {
+                // (as for transactions: an unknown header cycles added -> fetching -> not_found)
+                let h: H256 = self.hds[*i].unpack();
+                let stuck = (0..3).all(|_| {
+                    sim.advance(3_000);
+                    sim.tick_all();
+                    let _ = sim.deliver_all_fifo(200);
+                    matches!(sim.c().rpc_chain().fetch_header(h.clone()), Ok(FetchStatus::Fetching { .. }))
+                });
+                if stuck {
+                    bad.push(("fetch-lost/header".into(), format!("{} (not on the chain) stays `fetching` forever: no peer is asked again and nobody reported it missing", HD_NAMES[*i])));
+                }
+            }
         }
         bad.extend(self.committed_answers(sim));
         bad
